@@ -104,28 +104,36 @@ from fractions import Fraction
 from . import sym as _sym
 
 
+SIMPLIFY_KEYS = False     # purely syntactic keys: equality of arguments is left to the solver (congruence axioms)
+
+
 def _key(x):
     x = S.of(x)
     out = []
     for p in (x.re, x.im):
         if isinstance(p, Fraction):
             out.append(str(p))
-        else:
+        elif SIMPLIFY_KEYS:
             out.append(z3.simplify(_sym.zr(p), som=True).sexpr())
+        else:
+            out.append(_sym.zr(p).sexpr())
     return tuple(out)
 
 
 class Opaque:
-    """Uninterpreted function realised by atoms: one fresh constant (vector) per distinct argument
-    tuple, arguments compared after z3.simplify(som=True).  Only congruence is assumed: equal
-    arguments give the same value; different arguments give unrelated values (so a proof can only use
-    that the code passed the same arguments; a refutation is replayed with `concrete`).
+    """Uninterpreted function realised by atoms: one fresh constant (vector) per syntactically distinct
+    argument tuple; `congruence_axioms` (added by the harness as side conditions of every query) state
+    args_i == args_j -> value_i == value_j, so the atoms behave exactly like a z3 uninterpreted function
+    while the queries stay in QF_NRA.  Only congruence is assumed (a proof can only use that the code
+    passed the same arguments; a refutation is replayed with `concrete`).
     `concrete(*args)` is used when every argument is concrete (frac / real modes and the constructor
     probes of the real code)."""
 
     def __init__(self, name, concrete, shape=(), cplx=False):
         self.name, self.concrete, self.shape, self.cplx = name, concrete, shape, cplx
         self.table = {}
+        self.keys_args = []     # argument tuple of each table entry (for the congruence axioms)
+        self.values = []
         self.calls = []         # argument tuples in call order
 
     def _symbolic(self, a):
@@ -157,5 +165,55 @@ class Opaque:
                 for idx in np.ndindex(*self.shape):
                     out[idx] = atom("_" + "_".join(map(str, idx)))
                 self.table[key] = out
+            self.keys_args.append(args)
+            self.values.append(self.table[key])
         v = self.table[key]
         return v.copy() if isinstance(v, np.ndarray) else v
+
+
+def _eq_terms(x, y):
+    x, y = S.of(x), S.of(y)
+    out = []
+    for p, q in ((x.re, y.re), (x.im, y.im)):
+        if isinstance(p, Fraction) and isinstance(q, Fraction):
+            if p != q:
+                return None
+        else:
+            out.append(_sym.zr(p) == _sym.zr(q))
+    return out
+
+
+def congruence_axioms(op):
+    """args_i == args_j  ->  value_i == value_j for every pair of table entries of an Opaque.
+    Makes the atoms a genuine function of their arguments: proofs may use semantic (not only syntactic)
+    equality of arguments, and a counterexample must make some ARGUMENT differ (so that it can be replayed
+    with a concrete function)."""
+    items = list(zip(op.keys_args, op.values))
+    axs = []
+    for i in range(len(items)):
+        for j in range(i + 1, len(items)):
+            (ai, vi), (aj, vj) = items[i], items[j]
+            conds, impossible = [], False
+            for p, q in zip(ai, aj):
+                pf = list(p.flat) if isinstance(p, np.ndarray) else [p]
+                qf = list(q.flat) if isinstance(q, np.ndarray) else [q]
+                if len(pf) != len(qf):
+                    impossible = True
+                    break
+                for u, v in zip(pf, qf):
+                    e = _eq_terms(u, v)
+                    if e is None:
+                        impossible = True
+                        break
+                    conds += e
+                if impossible:
+                    break
+            if impossible:
+                continue
+            vf_ = list(vi.flat) if isinstance(vi, np.ndarray) else [vi]
+            wf_ = list(vj.flat) if isinstance(vj, np.ndarray) else [vj]
+            concl = []
+            for u, v in zip(vf_, wf_):
+                concl += _eq_terms(u, v) or []
+            axs.append(z3.Implies(z3.And(*conds) if conds else z3.BoolVal(True), z3.And(*concl)))
+    return axs
